@@ -20,7 +20,7 @@ META = {
         "relation chains kept below 150 operations (deeper chains hit the interpreter recursion limit: inconclusive, not a verdict)",
     ],
     "floors": {
-        "quick": {"flattened_then_nested": 2500, "time_triples_compared": 20000, "implicit_links": 5000, "explicit_JOINED_END": 200, "explicit_JOINED_START": 200,
+        "quick": {"flattened_then_nested": 2500, "unrolled_reread_after_registry_change": 500, "time_triples_compared": 20000, "implicit_links": 5000, "explicit_JOINED_END": 200, "explicit_JOINED_START": 200,
                   "eq_multi": 200, "unrolled_programs": 1000, "registry_reassignments": 800, "unrolled_then_nested": 3000},
         "thorough": {"time_triples_compared": 200000, "implicit_links": 50000, "explicit_JOINED_END": 2000, "eq_multi": 2000},
     },
